@@ -37,14 +37,16 @@ pub fn addr_hex(a: &crate::types::Address) -> String {
 }
 
 include!("suite_pure.rs");
+include!("suite_table.rs");
 
 pub struct State {
     pure_: PureState,
+    table: TableState,
 }
 
 impl State {
     fn new() -> Self {
-        State { pure_: PureState::new() }
+        State { pure_: PureState::new(), table: TableState::new() }
     }
 
     fn step(&mut self, line: &str) -> String {
@@ -52,7 +54,14 @@ impl State {
         if toks.is_empty() {
             return "bad-op".to_string();
         }
+        if toks[0] == "reset" {
+            *self = State::new();
+            return "ok".to_string();
+        }
         if let Some(r) = self.pure_.step(&toks) {
+            return r;
+        }
+        if let Some(r) = self.table.step(&toks) {
             return r;
         }
         "bad-op".to_string()
